@@ -3,7 +3,7 @@
     assignments / background / pipes / input and output redirections. *)
 From Coq Require Import List NArith ZArith Bool Lia.
 From Cicada Require Import Base.Chars Base.Tag Model.Tokenizer Model.Expand Model.ExpandRef Model.Redirect Model.FullPlan.
-From Cicada Require Import Proofs.TokenizerProofs Proofs.SubstProofs Proofs.ExpandBasics.
+From Cicada Require Import Proofs.TokenizerProofs Proofs.TokenizerWordProofs Proofs.SubstProofs Proofs.ExpandBasics.
 From Cicada Require Proofs.RedirectProofs Proofs.PlanInert Proofs.ExpandInert Proofs.ExpandUntagged.
 Import ListNotations.
 Local Open Scope N_scope.
@@ -131,4 +131,64 @@ Proof.
     pose proof (eq_trans (eq_sym Hla) E2) as E3. destruct l2 as [|x l2']; [exact E3|discriminate Hl].
   - intros [E1 E2]. f_equal. apply PI.plan_inert; [exact Hrc|exact (eq_trans Hall E1)|].
     refine (eq_trans Hla _). destruct l2 as [|x l2']; [exact (E2 eq_refl)|reflexivity].
+Qed.
+
+(* ------------------------------------------------------------------ unquoted reference: from the TEXT *)
+Theorem plan_unquoted_value_text_iff : forall W fuel cmd (args1 args2 : list (nat * qarg)) n noeq br (pre name post : str),
+  plain_word cmd = true -> forallb arith_body cmd = false -> split_env cmd = None -> EI.cmd_ok W cmd ->
+  forallb (fun '(_, a) => wf_qarg a) args1 = true -> forallb (fun '(_, a) => wf_qarg a) args2 = true ->
+  Forall (fun '(_, a) => calm_qarg a) args1 -> Forall (fun '(_, a) => calm_qarg a) args2 ->
+  forallb wchar (pre ++ render_piece (PRef br name) ++ post) = true ->
+  ~ In 36 pre -> ~ In 36 post -> ~ In 126 pre -> forallb (okg noeq) (pre ++ post) = true -> is_name name = true ->
+  (br = true \/ match post with c :: _ => is_alnum_us c = false | [] => True end) ->
+  let text := pre ++ key_value W name ++ post in
+  ~ In 96 text -> has_dollar_paren text = false -> ~ In 42 text -> ~ In 123 text ->
+  (plan W fuel (render_cmd cmd args1 ++ c_space :: spaces n ++ (pre ++ render_piece (PRef br name) ++ post) ++ render_args args2)
+   = Ok (one_cmd ((TNone, cmd) :: toks_of args1 ++ (TNone, text) :: toks_of args2))
+   <-> known_tok (TNone, text) (is_empty args2) = false).
+Proof.
+  intros W fuel cmd args1 args2 n noeq br pre name post Hp Ha He Hc Hw1 Hw2 Hc1 Hc2 Hwc Hpre Hpost Htl Hg Hn Hbr text H96 Hdp H42 H123.
+  unfold plan. rewrite parse_line_one_unquoted; try assumption.
+  2:{ intros E. apply (f_equal (@length _)) in E. rewrite !app_length in E. destruct br; cbn in E; lia. }
+  change (map (fun '(_, a) => tok_of_qarg a) args1) with (toks_of args1).
+  change (map (fun '(_, a) => tok_of_qarg a) args2) with (toks_of args2).
+  assert (Hemp : is_empty args2 = is_empty (toks_of args2)) by (destruct args2 as [|[? ?] ?]; reflexivity).
+  rewrite Hemp.
+  apply (plan_unquoted_value_iff W fuel cmd (toks_of args1) (toks_of args2) noeq br pre name post);
+    try assumption; try (now apply calm_inert). now apply RP.plain_word_cmd_ok.
+Qed.
+
+(* ------------------------------------------------------------------ a GENUINE input redirection on the same line *)
+Lemma tok_ok_quoted W l l' : Forall2 (EI.tok_ok W) l l' -> forallb RP.quoted_tok l' = true.
+Proof.
+  induction 1 as [|t t' l l' Ht _ IH]; [reflexivity|]. cbn [forallb]. rewrite IH, andb_true_r.
+  destruct Ht; reflexivity.
+Qed.
+
+(** [cmd a.. OP f b..]: a.., b.. quoted arguments (single-quoted, double-quoted with or without
+    references -- [EI.tok_ok]), OP the written untagged word [<] or [<<<], f a literal file
+    name / word.  The plan is one command with the EXPANDED a.., b.. as words and exactly
+    that input redirection: a double-quoted value that is itself [<] stays a word. *)
+Theorem plan_toks_with_from : forall W fuel cmd a a' b b' op (f : str),
+  RP.cmd_ok cmd = true -> EI.cmd_ok W cmd ->
+  Forall2 (EI.tok_ok W) a a' -> Forall2 (EI.tok_ok W) b b' ->
+  (op = s_lt \/ op = s_lt3) -> EU.lit_ok f = true -> PI.inert_tok (TNone, f) = true -> str_eqb f [c_amp] = false ->
+  plan_toks W fuel ((TNone, cmd) :: a ++ (TNone, op) :: (TNone, f) :: b)
+  = Ok (inl (mkcl [mkc ((TNone, cmd) :: a' ++ b') [] (Some (op, f))] [] false)).
+Proof.
+  intros W fuel cmd a a' b b' op f Hrc Hc Ha Hb Hop Hf Hfi Hfa. unfold plan_toks.
+  match goal with |- bind ?x ?g = _ =>
+    assert (E : x = Ok ((TNone, cmd) :: a' ++ (TNone, op) :: (TNone, f) :: b')) end.
+  { apply EU.do_expansion_inert1; [exact Hc|].
+    apply Forall2_app; [now apply EU.tok_ok_ok1_all|].
+    constructor; [apply EU.lit_tok_ok1; destruct Hop as [-> | ->]; reflexivity|].
+    constructor; [now apply EU.lit_tok_ok1|now apply EU.tok_ok_ok1_all]. }
+  rewrite E. cbn [bind]. f_equal.
+  apply (PI.plan_inert_from cmd a' b' op (TNone, f)); try assumption.
+  - apply PI.quoted_all_inert. eapply tok_ok_quoted; eassumption.
+  - apply PI.quoted_all_inert. eapply tok_ok_quoted; eassumption.
+  - destruct b' as [|t b''].
+    + unfold PI.last_amp, PI.amp_tok. cbn. exact Hfa.
+    + change ((TNone, f) :: t :: b'') with ([(TNone, f)] ++ t :: b''). rewrite PI.last_amp_app_ne by discriminate.
+      apply PI.quoted_last_amp. eapply tok_ok_quoted; eassumption.
 Qed.
